@@ -69,6 +69,20 @@ func proxyCode(mode string, target common.Address) []byte {
 		rt = append(rt, 0x5a, 0xf4)
 		dest := byte(len(rt) + 8)
 		rt = append(rt, 0x60, dest, 0x57, 0x60, 0x00, 0x60, 0x00, 0xfd, 0x5b, 0x00)
+	case "double":
+		// two CALLs to target in one transaction: the first with the first half of the call data, the second with the rest
+		rt = append(rt, copyIn...)
+		half := []byte{0x60, 0x02, 0x36, 0x04} // calldatasize / 2
+		rt = append(rt, 0x60, 0x00, 0x60, 0x00)
+		rt = append(rt, half...)
+		rt = append(rt, 0x60, 0x00, 0x60, 0x00, 0x73)
+		rt = append(rt, target.Bytes()...)
+		rt = append(rt, 0x5a, 0xf1, 0x50)
+		rt = append(rt, 0x60, 0x00, 0x60, 0x00)
+		rt = append(rt, half...)
+		rt = append(rt, 0x80, 0x60, 0x00, 0x73)
+		rt = append(rt, target.Bytes()...)
+		rt = append(rt, 0x5a, 0xf1, 0x50, 0x00)
 	case "lookalike":
 		rt = append(rt, copyIn...)
 		rt = append(rt, 0x60, 0x00, 0x35, 0x60, 0x20, 0x36, 0x03, 0x60, 0x20, 0xa1, 0x00)
@@ -80,6 +94,7 @@ func proxyCode(mode string, target common.Address) []byte {
 type adWorld struct {
 	C       *Chain
 	Val     string
+	Val2    string                               // the second validator (redelegation target)
 	Helpers map[string]map[string]common.Address // helper[mode][contract]
 	sink0   sdk.Int
 	sup0    sdk.Int
@@ -93,12 +108,21 @@ var (
 func newAdWorld() *adWorld {
 	rich, eoa := NewAcct("ad/rich"), NewAcct("ad/eoa")
 	c := NewChain(ChainOpts{ChainID: "teleport_9000-10", Accts: []Acct{rich, eoa}, Balances: map[string]int64{eoa.Name: 0},
-		Bond:  "1000000000000000000000000", // far above what the actors can delegate: their votes never reach the quorum
-		Coins: map[string]sdk.Coins{eoa.Name: adCoins(adStart), rich.Name: adCoins(100)}})
+		Bond:      "1000000000000000000000000", // far above what the actors can delegate: their votes never reach the quorum
+		SecondVal: true,
+		Coins:     map[string]sdk.Coins{eoa.Name: adCoins(adStart), rich.Name: adCoins(100)}})
 	w := &adWorld{C: c, Helpers: map[string]map[string]common.Address{}}
 	vals := c.App.StakingKeeper.GetAllValidators(c.Ctx())
-	w.Val = vals[0].OperatorAddress
-	for _, mode := range []string{"forward", "fwdrevert", "delegatecall", "lookalike"} {
+	w.Val = sdk.ValAddress(c.Vals.Validators[0].Address).String()
+	for _, v := range vals {
+		if v.OperatorAddress != w.Val {
+			w.Val2 = v.OperatorAddress
+		}
+	}
+	if w.Val2 == "" {
+		panic("no second validator")
+	}
+	for _, mode := range []string{"forward", "fwdrevert", "delegatecall", "lookalike", "double"} {
 		w.Helpers[mode] = map[string]common.Address{}
 		for _, name := range []string{"staking", "gov"} { // fixed order: the helper addresses depend on the deployer's nonce
 			target := map[string]common.Address{"staking": stakingAddr, "gov": govAddr}[name]
@@ -111,8 +135,8 @@ func newAdWorld() *adWorld {
 		}
 	}
 	// the forwarding contracts act with their own coins
-	for _, name := range []string{"staking"} {
-		fwd := sdk.AccAddress(w.Helpers["forward"][name].Bytes())
+	for _, name := range []string{"forward", "double"} {
+		fwd := sdk.AccAddress(w.Helpers[name]["staking"].Bytes())
 		if r := c.DeliverMsgs(rich, banktypes.NewMsgSend(rich.Acc, fwd, adCoins(adStart))); !r.OK() {
 			panic("fund forwarder: " + r.Log)
 		}
@@ -139,35 +163,56 @@ func (w *adWorld) actorAddrs(a string) []sdk.AccAddress {
 	if a == "eoa" {
 		return []sdk.AccAddress{w.C.Accts[1].Acc}
 	}
+	if a == "dbl" {
+		return []sdk.AccAddress{sdk.AccAddress(w.Helpers["double"]["staking"].Bytes()), sdk.AccAddress(w.Helpers["double"]["gov"].Bytes())}
+	}
 	return []sdk.AccAddress{sdk.AccAddress(w.Helpers["forward"]["staking"].Bytes()), sdk.AccAddress(w.Helpers["forward"]["gov"].Bytes())}
 }
 
 func (w *adWorld) project() M {
 	c := w.C
 	ctx := c.Ctx()
-	valAddr, _ := sdk.ValAddressFromBech32(w.Val)
+	vaddr := map[string]sdk.ValAddress{}
+	for k, b32 := range map[string]string{"v1": w.Val, "v2": w.Val2} {
+		va, err := sdk.ValAddressFromBech32(b32)
+		must(err)
+		vaddr[k] = va
+	}
 	st := M{}
-	for _, a := range []string{"eoa", "fwd"} {
+	for _, a := range []string{"eoa", "fwd", "dbl"} {
 		var voted int64
-		bal, del, unb := sdk.ZeroInt(), sdk.ZeroInt(), sdk.ZeroInt()
+		bal, unb := sdk.ZeroInt(), sdk.ZeroInt()
+		del := map[string]sdk.Int{"v1": sdk.ZeroInt(), "v2": sdk.ZeroInt()}
+		redel := []interface{}{}
 		for i, addr := range w.actorAddrs(a) {
 			if i == 0 {
 				bal = c.Bal(addr, sdk.DefaultBondDenom)
 			}
-			if d, ok := c.App.StakingKeeper.GetDelegation(ctx, addr, valAddr); ok {
-				v, _ := c.App.StakingKeeper.GetValidator(ctx, valAddr)
-				del = del.Add(v.TokensFromShares(d.Shares).TruncateInt())
-			}
-			if u, ok := c.App.StakingKeeper.GetUnbondingDelegation(ctx, addr, valAddr); ok {
-				for _, e := range u.Entries {
-					unb = unb.Add(e.Balance)
+			for _, vk := range []string{"v1", "v2"} {
+				if d, ok := c.App.StakingKeeper.GetDelegation(ctx, addr, vaddr[vk]); ok {
+					v, _ := c.App.StakingKeeper.GetValidator(ctx, vaddr[vk])
+					del[vk] = del[vk].Add(v.TokensFromShares(d.Shares).TruncateInt())
+				}
+				if u, ok := c.App.StakingKeeper.GetUnbondingDelegation(ctx, addr, vaddr[vk]); ok {
+					for _, e := range u.Entries {
+						unb = unb.Add(e.Balance)
+					}
+				}
+				other := map[string]string{"v1": "v2", "v2": "v1"}[vk]
+				if r, ok := c.App.StakingKeeper.GetRedelegation(ctx, addr, vaddr[vk], vaddr[other]); ok && len(r.Entries) > 0 {
+					redel = append(redel, []interface{}{vk, other})
 				}
 			}
 			if v, ok := c.App.GovKeeper.GetVote(ctx, 1, addr); ok && len(v.Options) > 0 {
 				voted = int64(v.Options[0].Option)
+				if len(v.Options) == 2 && v.Options[0].Weight.Equal(sdk.NewDecWithPrec(5, 1)) && v.Options[1].Weight.Equal(sdk.NewDecWithPrec(5, 1)) {
+					voted = int64(v.Options[0].Option)*10 + int64(v.Options[1].Option)
+				} else if len(v.Options) != 1 || !v.Options[0].Weight.Equal(sdk.OneDec()) {
+					voted = -1
+				}
 			}
 		}
-		st[a] = M{"bal": adUnits(bal), "del": adUnits(del), "unb": adUnits(unb), "voted": voted}
+		st[a] = M{"bal": adUnits(bal), "del": M{"v1": adUnits(del["v1"]), "v2": adUnits(del["v2"])}, "unb": adUnits(unb), "voted": voted, "redel": redel}
 	}
 	p, ok := c.App.GovKeeper.GetProposal(ctx, 1)
 	st["active"] = ok && p.Status == govtypes.StatusVotingPeriod
@@ -194,8 +239,12 @@ func driveAdapter(t *testing.T, in, out string, seed int64) {
 			switch act {
 			case "Tx":
 				path, op := str(st["path"]), str(st["op"])
-				val := w.Val
-				if str(st["val"]) != "valid" {
+				val, otherVal := w.Val, w.Val2
+				switch str(st["val"]) {
+				case "valid":
+				case "second":
+					val, otherVal = w.Val2, w.Val
+				default:
 					val = "teleportvaloper1unknownvalidatorxxxxxxxxxxxxxxxxxxxx"
 				}
 				amt := new(big.Int).Mul(big.NewInt(num(st["amt"])), adUnit)
@@ -213,10 +262,21 @@ func driveAdapter(t *testing.T, in, out string, seed int64) {
 				case "withdraw":
 					data = mustPack(stakingcontract.StakingContract.ABI, "withdraw", val)
 					eventName, eventArgs = "Withdrew", []interface{}{eoa.Eth, val}
+				case "redelegate":
+					data = mustPack(stakingcontract.StakingContract.ABI, "redelegate", val, otherVal, amt)
+					eventName, eventArgs = "Redelegated", []interface{}{eoa.Eth, val, otherVal, amt}
 				case "vote":
 					contract, target = "gov", govAddr
 					data = mustPack(govcontract.GovContract.ABI, "vote", uint64(1), uint32(num(st["opt"])))
 					eventName, eventArgs = "Voted", []interface{}{eoa.Eth, uint64(1), uint32(num(st["opt"]))}
+				case "votew":
+					contract, target = "gov", govAddr
+					opts := []govcontract.GovOptionWeight{{Option: uint32(num(st["opt"])), Weight: 100}}
+					if num(st["opt"]) == 12 {
+						opts = []govcontract.GovOptionWeight{{Option: 1, Weight: 50}, {Option: 2, Weight: 50}}
+					}
+					data = mustPack(govcontract.GovContract.ABI, "vote0", uint64(1), opts)
+					eventName, eventArgs = "VotedWeighted", []interface{}{eoa.Eth, uint64(1), opts}
 				}
 				to := target
 				switch path {
@@ -237,6 +297,17 @@ func driveAdapter(t *testing.T, in, out string, seed int64) {
 				r := c.DeliverEth(eoa, &to, nil, data)
 				line["res"], line["msg"] = resOf(r), clip(r.Log+r.VMError)
 				line["sig"] = fmt.Sprintf("Tx/%s/%s", path, op)
+			case "Tx2":
+				prop := uint64(1)
+				if str(st["val"]) != "valid" {
+					prop = 999 // no such proposal: the first native vote fails
+				}
+				d1 := mustPack(govcontract.GovContract.ABI, "vote", prop, uint32(num(st["opt"])))
+				d2 := mustPack(govcontract.GovContract.ABI, "vote", uint64(1), uint32(num(st["opt2"])))
+				to := w.Helpers["double"]["gov"]
+				r := c.DeliverEth(eoa, &to, nil, append(d1, d2...))
+				line["res"], line["msg"] = resOf(r), clip(r.Log+r.VMError)
+				line["sig"] = "Tx2"
 			case "Expire":
 				c.CommitAdvance(11 * time.Second)
 				c.Commit()
